@@ -225,8 +225,25 @@ Find(h, r, i, index) ==
   ELSE Find(h, h.nd[r][Shr(index, i * SplitBits) % Arity], i - 1, index)
 
 Slot(h, index) == Find(h, Root(h), h.depth, index)
-SlotSeq(h) == [i \in 1..h.n |-> Slot(h, i)]
-Stored(h) == {Slot(h, i) : i \in 1..h.n}
+
+(* the slots 1..n as a sequence, gathered leaf by leaf (leaf j holds the
+   indices j*Arity .. j*Arity + Arity - 1; index 0 is not a slot) *)
+RECURSIVE LeafOf(_, _, _, _)
+LeafOf(h, r, i, j) ==
+  IF r = NULL THEN NULL
+  ELSE IF r \notin h.alloc THEN POISON
+  ELSE IF i = 0 THEN r
+  ELSE LeafOf(h, h.nd[r][Shr(j, (i - 1) * SplitBits) % Arity], i - 1, j)
+Leaf(h, j) == LeafOf(h, Root(h), h.depth, j)
+LeafSeq(h, j) ==
+  LET r == Leaf(h, j)
+  IN IF r = NULL THEN [k \in 1..Arity |-> NULL]
+     ELSE IF r = POISON THEN [k \in 1..Arity |-> POISON]
+     ELSE [k \in 1..Arity |-> h.nd[r][k - 1]]
+RECURSIVE CatLeaves(_, _)
+CatLeaves(h, j) == IF j < 0 THEN <<>> ELSE CatLeaves(h, j - 1) \o LeafSeq(h, j)
+SlotSeq(h) == SubSeq(CatLeaves(h, h.n \div Arity), 2, h.n + 1)
+Stored(h) == LET s == SlotSeq(h) IN {s[i] : i \in 1..h.n}
 
 RECURSIVE ReachFrom(_, _, _)
 ReachFrom(h, r, i) ==
@@ -236,12 +253,14 @@ Reach(h) == ReachFrom(h, Root(h), h.depth)
 
 Capacity(h) == 2 ^ ((h.depth + 1) * SplitBits)
 
-(* Invariants *)
-HeapOrder(h)  == \A i \in 2..h.n : ~Gt(h, Slot(h, i \div 2), Slot(h, i))
-StoredOK(h)   == \A i \in 1..h.n : Slot(h, i) \in Timers
-BackIndex(h)  == /\ \A i \in 1..h.n : h.ix[Slot(h, i)] = i
-                 /\ \A t \in Timers : h.ix[t] >= 1 => (h.ix[t] <= h.n /\ Slot(h, h.ix[t]) = t)
-RootIsMin(h)  == h.n > 0 => \A i \in 1..h.n : ~Gt(h, Slot(h, 1), Slot(h, i))
+(* Invariants (s = SlotSeq(h) is computed once per clause) *)
+StoredOK(h)   == Stored(h) \subseteq Timers
+NoDup(h)      == Cardinality(Stored(h)) = h.n
+HeapOrder(h)  == LET s == SlotSeq(h) IN \A i \in 2..h.n : ~Gt(h, s[i \div 2], s[i])
+BackIndex(h)  == LET s == SlotSeq(h) IN
+                 /\ \A i \in 1..h.n : h.ix[s[i]] = i
+                 /\ \A t \in Timers : h.ix[t] >= 1 => (h.ix[t] <= h.n /\ s[h.ix[t]] = t)
+RootIsMin(h)  == h.n > 0 => LET s == SlotSeq(h) IN \A i \in 1..h.n : ~Gt(h, s[1], s[i])
 NoStale(h)    == \A i \in (h.n + 1)..(Capacity(h) - 1) : Slot(h, i) = NULL
 DepthMinimal(h) == /\ h.depth >= 0
                    /\ Shr(h.n, (h.depth + 1) * SplitBits) = 0
@@ -249,10 +268,30 @@ DepthMinimal(h) == /\ h.depth >= 0
 NoDangling(h) == Reach(h) \subseteq h.alloc
 NoLeak(h)     == h.alloc \ Reach(h) = {}
 OverlayOK(h)  == FirstLeaf \in Reach(h) /\ Root(h) \in h.alloc
-NoDup(h)      == \A i, j \in 1..h.n : Slot(h, i) = Slot(h, j) => i = j
 DeinitFrees(h) == LET z == Deinit(h) IN z.alloc = {FirstLeaf} /\ z.depth = 0
 
 StoreOK(h) ==
   /\ StoredOK(h) /\ NoDup(h) /\ BackIndex(h) /\ HeapOrder(h) /\ RootIsMin(h)
   /\ NoStale(h) /\ DepthMinimal(h) /\ NoDangling(h) /\ NoLeak(h) /\ OverlayOK(h)
+
+-----------------------------------------------------------------------------
+(* Canonical renaming of timer identities: the algorithm never looks at an
+   identity, so two states that differ by a permutation of Timers are
+   bisimilar.  Canon(h) renames the timer in slot i to i (and the others, in
+   order, to n+1..); the pointer structure, the expiries and the back indices
+   are carried along unchanged, so every invariant holds of Canon(h) iff it
+   holds of h.  Requires Timers = 1..K.  Ill-formed stores are left alone. *)
+RECURSIVE Relabel(_, _)
+Relabel(h, j) ==
+  IF j < 0 THEN h
+  ELSE Relabel([h EXCEPT !.nd[Leaf(h, j)] =
+                  [k \in Slots |-> LET idx == j * Arity + k
+                                   IN IF idx >= 1 /\ idx <= h.n THEN idx ELSE @[k]]], j - 1)
+
+Canon(h) ==
+  IF ~(StoredOK(h) /\ NoDup(h) /\ \A t \in Timers \ Stored(h) : h.ix[t] = -1) THEN h
+  ELSE LET s == SlotSeq(h)
+       IN [Relabel(h, h.n \div Arity) EXCEPT
+             !.ex = [k \in Timers |-> IF k <= h.n THEN h.ex[s[k]] ELSE 0],
+             !.ix = [k \in Timers |-> IF k <= h.n THEN h.ix[s[k]] ELSE -1]]
 =============================================================================
